@@ -23,6 +23,24 @@ pub const KINDS: [std::io::ErrorKind; 10] = [
     std::io::ErrorKind::BrokenPipe,
 ];
 
+/// Read-side faults also come as the kinds that retry loops treat specially: a call that
+/// meets them may succeed after all (std's read_exact retries Interrupted), but then it
+/// must return the fault-free value.
+pub const READ_KINDS: [std::io::ErrorKind; 12] = [
+    std::io::ErrorKind::Other,
+    std::io::ErrorKind::Interrupted,
+    std::io::ErrorKind::UnexpectedEof,
+    std::io::ErrorKind::TimedOut,
+    std::io::ErrorKind::WouldBlock,
+    std::io::ErrorKind::NotFound,
+    std::io::ErrorKind::PermissionDenied,
+    std::io::ErrorKind::InvalidInput,
+    std::io::ErrorKind::InvalidData,
+    std::io::ErrorKind::AlreadyExists,
+    std::io::ErrorKind::WriteZero,
+    std::io::ErrorKind::BrokenPipe,
+];
+
 #[derive(Default, Debug, Clone)]
 pub struct ReadRunStats {
     pub n_calls: u64,
